@@ -47,6 +47,47 @@ StringArray(t, seps, spaces, skip, maxitems) ==
    Loop(t, IF spaces # {} THEN RunLen(t, 0, spaces) ELSE 0, <<>>, seps, spaces, skip, maxitems)
 
 -----------------------------------------------------------------------------
+(* The other primitives of ParserText AS CODED, over the text from the cursor on.  Result: [k |-> "ok", items |-> texts, pos]
+   or INV (invalid value) or NED (not enough data). *)
+NED == [k |-> "NED", items |-> <<>>, pos |-> 0]
+IsDigit(c) == c \in 48..57
+RECURSIVE DigitRun(_, _)
+DigitRun(t, off) == IF off + 1 <= Len(t) /\ IsDigit(t[off + 1]) THEN 1 + DigitRun(t, off + 1) ELSE 0
+
+\* _parse_numeric_array(item_num, separator, is_floating): items are the texts handed to the converter.
+\* itemnum < 0: no limit; seps = {}: no separator
+RECURSIVE NumLoop(_, _, _, _, _, _, _, _)
+NumLoop(t, last, off0, fp, vals, itemnum, seps, floating) ==
+   LET off == off0 + DigitRun(t, off0) IN
+   IF off = last THEN INV
+   ELSE IF floating /\ ~fp /\ off < Len(t) /\ t[off + 1] = 46 THEN NumLoop(t, last, off + 1, TRUE, vals, itemnum, seps, floating)
+   ELSE LET vals1 == Append(vals, SubSeq(t, last + 1, off)) IN
+        IF off = Len(t) \/ (itemnum >= 0 /\ Len(vals1) = itemnum) THEN [k |-> "ok", items |-> vals1, pos |-> off]
+        ELSE LET c == IF seps # {} THEN CheckSeps(t, off, seps, 1, 1) ELSE 0 IN
+             IF c < 0 THEN INV ELSE NumLoop(t, off + c, off + c, FALSE, vals1, itemnum, seps, floating)
+NumericArray(t, itemnum, seps, floating) == NumLoop(t, 0, 0, FALSE, <<>>, itemnum, seps, floating)
+
+\* parse_separator(separator, min_length, max_length): max < 0 = no maximum
+Separator(t, seps, min, max) ==
+   LET c == CheckSeps(t, 0, seps, min, max) IN IF c < 0 THEN INV ELSE [k |-> "ok", items |-> <<>>, pos |-> c]
+
+\* parse_string_until_separator (mayend = FALSE) / _or_end (TRUE), single-character separators
+Until(t, seps, mayend) ==
+   LET end == FirstSep(t, 0, seps) IN
+   IF end = Len(t) /\ ~mayend THEN INV ELSE [k |-> "ok", items |-> <<SubSeq(t, 1, end)>>, pos |-> end]
+
+\* parse_string(value): the literal or nothing (also when the text is too short)
+Literal(t, lit) ==
+   IF Len(t) >= Len(lit) /\ SubSeq(t, 1, Len(lit)) = lit THEN [k |-> "ok", items |-> <<lit>>, pos |-> Len(lit)] ELSE INV
+\* parse_bool: "yes" / "no"
+BoolText(t) == IF Literal(t, <<121, 101, 115>>).k = "ok" THEN [k |-> "ok", items |-> <<<<1>>>>, pos |-> 3]
+               ELSE IF Literal(t, <<110, 111>>).k = "ok" THEN [k |-> "ok", items |-> <<<<0>>>>, pos |-> 2] ELSE INV
+\* parse_string_by_length(min, max): max < 0 = to the end
+ByLength(t, min, max) ==
+   IF min > Len(t) THEN NED
+   ELSE LET n == IF max < 0 THEN Len(t) ELSE (IF max < Len(t) THEN max ELSE Len(t)) IN [k |-> "ok", items |-> <<SubSeq(t, 1, n)>>, pos |-> n]
+
+-----------------------------------------------------------------------------
 (* intent: split at separators, trim, drop empty elements *)
 RECURSIVE Split(_, _)
 Split(t, seps) == LET e == FirstSep(t, 0, seps) IN
